@@ -18,9 +18,17 @@ import (
 )
 
 type witness struct {
-	Kind  string   `json:"kind"`
-	Start string   `json:"start_fen"`
+	Kind   string   `json:"kind"`
+	Start  string   `json:"start_fen"`
+	Moves  []string `json:"moves"`
+	Script []posCmd `json:"session,omitempty"`
+}
+
+// posCmd is one position command of a multi-command driver session.
+type posCmd struct {
+	Start string   `json:"start"` // "startpos" or a FEN
 	Moves []string `json:"moves"`
+	Pre   string   `json:"pre,omitempty"` // command sent before it (ucinewgame, isready, ...)
 }
 
 var fieldNames = []string{"placement", "side", "rights", "enpassant", "halfmove", "fullmove"}
@@ -101,7 +109,9 @@ func TestCheck(t *testing.T) {
 		if err := ev.ReadReplay(r.Replay, &w); err != nil {
 			t.Fatal(err)
 		}
-		if w.Kind == "uci" {
+		if w.Kind == "uci-session" {
+			uciSession(r, ev.NewLocal(), w.Script)
+		} else if w.Kind == "uci" {
 			uciCase(r, w.Start, w.Moves, w.Start == "startpos")
 		} else {
 			history(r, ev.NewLocal(), w.Kind, ref.MustFEN(w.Start), w.Moves, true)
@@ -260,7 +270,16 @@ func TestCheck(t *testing.T) {
 		r.MaxCount("uci_longest_move_list_plies", int64(len(ms)))
 		r.Merge(lcs[wk])
 	})
-	r.Finish("uci_scripts_with_line_over_4096_bytes", "moves_compared", "castling_moves", "en_passant_captures", "promotions", "ep_target_recorded", "ep_target_suppressed_capture_illegal",
+	// several position commands in ONE driver: the position after each command must depend on that
+	// command alone, whatever the driver saw before (same list again, extensions of an earlier list,
+	// startpos and fen starts interleaved, ucinewgame in between)
+	ns := r.N(1500, 60000)
+	ev.Parallel(ns, func(wk, i int) {
+		rng := r.RNG("c02-ucisession", i)
+		uciSession(r, lcs[wk], randomSession(rng, corpus))
+		r.Merge(lcs[wk])
+	})
+	r.Finish("uci_sessions", "uci_session_position_commands", "uci_session_list_extends_earlier_list", "uci_session_startpos_after_fen", "uci_scripts_with_line_over_4096_bytes", "moves_compared", "castling_moves", "en_passant_captures", "promotions", "ep_target_recorded", "ep_target_suppressed_capture_illegal",
 		"rights_lost_by_rook_capture", "clock_ge_100", "clock_ge_128", "uci_scripts", "history_moves")
 }
 
@@ -340,5 +359,141 @@ func uciCase(r *ev.Run, start string, moves []string, startpos bool) {
 		d := diffFields(got, cur.FEN())
 		r.Violation("C02:uci-successor-mismatch:"+d, witness{Kind: "uci", Start: start, Moves: moves},
 			fmt.Sprintf("%s\nengine    %s\nreference %s\nstderr %q", strings.SplitN(cmd.String(), "\n", 2)[0], got, cur.FEN(), errb.String()))
+	}
+}
+
+// randomSession builds a session of 3-8 position commands whose move lists are related to each
+// other the way a GUI's are: the same game resent with one or two more moves, a different game in
+// between, the same list twice.
+func randomSession(rng *rand.Rand, corpus []ref.Pos) []posCmd {
+	type game struct {
+		start string
+		pos   ref.Pos
+		moves []string
+	}
+	mk := func(sp bool) game {
+		g := game{start: "startpos", pos: corpus[0]}
+		if !sp {
+			g.pos = corpus[rng.IntN(len(corpus))]
+			g.pos.Half %= 60
+			g.start = g.pos.FEN()
+		}
+		for _, st := range gen.Playout(rng, g.pos, 2+rng.IntN(30), gen.MoveBias(rng.IntN(3)), 150) {
+			g.moves = append(g.moves, st.Move.String())
+		}
+		return g
+	}
+	games := []game{mk(true), mk(false)}
+	if rng.IntN(2) == 0 {
+		games = append(games, mk(rng.IntN(2) == 0))
+	}
+	shown := make([]int, len(games)) // how much of each game has been sent so far
+	var out []posCmd
+	n := 3 + rng.IntN(6)
+	for k := 0; k < n; k++ {
+		gi := rng.IntN(len(games))
+		if k < 3 {
+			gi = []int{0, 1, 0}[k] // startpos list, a fen command, the startpos list extended
+		}
+		g := &games[gi]
+		var upto int
+		switch x := rng.IntN(10); {
+		case x < 6: // the game goes on by 0-3 plies
+			upto = min(len(g.moves), shown[gi]+rng.IntN(4))
+		case x < 8: // take-back
+			upto = rng.IntN(shown[gi] + 1)
+		default:
+			upto = rng.IntN(len(g.moves) + 1)
+		}
+		if k == 0 && upto == 0 {
+			upto = min(len(g.moves), 1+rng.IntN(6))
+		}
+		shown[gi] = upto
+		c := posCmd{Start: g.start, Moves: append([]string(nil), g.moves[:upto]...)}
+		switch rng.IntN(8) {
+		case 0:
+			c.Pre = "ucinewgame"
+		case 1:
+			c.Pre = "isready"
+		}
+		out = append(out, c)
+	}
+	return out
+}
+
+// uciSession feeds the whole session to one driver, with `fen` after every position command, and
+// compares each reported position with the reference model's for that command alone.
+func uciSession(r *ev.Run, lc *ev.Local, script []posCmd) {
+	var cmd strings.Builder
+	var want []string
+	seen := map[string]bool{}
+	fenBefore := false
+	for _, c := range script {
+		cur := gen.Corpus()[0]
+		if c.Start != "startpos" {
+			cur = ref.MustFEN(c.Start)
+		}
+		for _, name := range c.Moves {
+			var m ref.Move
+			for _, l := range cur.Legal() {
+				if l.String() == name {
+					m = l
+				}
+			}
+			if m == 0 {
+				r.HarnessError("uci session move %s not legal in %s", name, cur.FEN())
+				return
+			}
+			cur = cur.Make(m).Normalised()
+		}
+		want = append(want, cur.FEN())
+		if c.Pre != "" {
+			cmd.WriteString(c.Pre + "\n")
+		}
+		line := "position startpos"
+		if c.Start != "startpos" {
+			line = "position fen " + c.Start
+			fenBefore = true
+		} else if fenBefore {
+			lc.C["uci_session_startpos_after_fen"]++
+		}
+		if len(c.Moves) > 0 {
+			line += " moves " + strings.Join(c.Moves, " ")
+		}
+		for prev := range seen {
+			if len(c.Moves) > 0 && strings.HasPrefix(c.Start+" "+strings.Join(c.Moves, " ")+" ", prev) {
+				lc.C["uci_session_list_extends_earlier_list"]++
+				break
+			}
+		}
+		if len(c.Moves) > 0 {
+			seen[c.Start+" "+strings.Join(c.Moves, " ")+" "] = true
+		}
+		cmd.WriteString(line + "\nfen\n")
+		lc.C["uci_session_position_commands"]++
+	}
+	cmd.WriteString("quit\n")
+	var out, errb bytes.Buffer
+	drv := uci.NewDriver(uci.WithInput(strings.NewReader(cmd.String())), uci.WithOutput(&out), uci.WithError(&errb))
+	drv.Run()
+	var got []string
+	for _, l := range strings.Split(strings.TrimSpace(out.String()), "\n") {
+		if l != "readyok" {
+			got = append(got, l)
+		}
+	}
+	r.Eval(len(want))
+	lc.C["uci_sessions"]++
+	for k := range want {
+		g := "<no output>"
+		if k < len(got) {
+			g = got[k]
+		}
+		if g != want[k] {
+			d := diffFields(g, want[k])
+			r.Violation("C02:uci-session-successor-mismatch:"+d, witness{Kind: "uci-session", Script: script},
+				fmt.Sprintf("position command %d of %d in one driver session reports a position that is not the one its own start and move list prescribe\ncommand   position %s moves %s\nengine    %s\nreference %s\nsession:\n%s", k+1, len(script), script[k].Start, strings.Join(script[k].Moves, " "), g, want[k], cmd.String()))
+			return
+		}
 	}
 }
